@@ -7,23 +7,42 @@ import wire
 import curtsies.window
 from termref import Term, tokenize, enc_ops, enc_rows, enc_array
 from curtsies.window import CursorAwareWindow
-from props.c02 import group, eff_row, enc_term, rand_cells, rand_junk, ATTS
+from props.c02 import group, eff_row, enc_term, rand_cells, rand_junk, ATTS, mk_array, container_for
 
 PROP = "C07"
 MODULES = ["Curtsies.Properties.C07"]
-RULE = ("seeded histories: terminal 1-4 rows x 2-5 columns; initial screen = arbitrary formatted junk with 0-3 rows of "
+RULE = ("(also: histories mixing renders with `the terminal is resized and its content moves by k rows` followed by "
+        "get_cursor_vertical_diff - judged for C18's conservation and, relative to the moved origin, for all of C07's "
+        "clauses; the same without a size change are outside the domain and run for the tie only) seeded histories: terminal 1-4 rows x 2-5 columns; initial screen = arbitrary formatted junk with 0-3 rows of "
         "scrollback, cursor on any cell; enter (the query is answered by the reference terminal itself), 0-4 renders of "
         "arrays with 0..h+2 rows of 0..w cells (full-width rows included), cursor_pos on any array cell, then exit; "
         "keep_last_line / hide_cursor on and off; exhaustive: initial cursor row x two consecutive array heights 0..5 x "
         "cursor row at 3x3. Real writes are applied to the reference terminal AS THEY ARE WRITTEN (so the position query "
         "reads the live cursor), tokenised, and must equal the model's operations; screen, scrollback and cursor are "
         "also compared with pyte. non-trivial = distinct histories with a render that scrolls or a non-empty prior screen")
-ASSUMPTIONS = ["array rows are at most as wide as the terminal and made of single-column characters without ESC/0x9b "
-               "(the docstring: wider rows are rendered anyway and wrap)",
+ASSUMPTIONS = ["array rows are at most as wide as the terminal (`len l <= t.w` in the theorems): the property's quantifier does not "
+               "mention row lengths; rows wider than the terminal are 'rendered anyway' (docstring), wrap, and cause a scroll the "
+               "window does not count - outside C07's quantifier as read here",
+               "rows are made of printable single-column characters (no control character, no wide/combining character)",
+               "the terminal is in its default graphic state when a render starts (`t.g = {}`); it has at most 1000001 rows "
+               "(the constant in scroll_down)",
+               "vertical movement of the terminal content comes with a size change (then the next render drops the row cache); "
+               "content that moves while the size stays (another program scrolling the screen) leaves a stale cache - such "
+               "histories are run for the tie only; it is also the only way window.py's `row not in self._last_lines_by_row` "
+               "shortcut is reached with a non-empty cache: in-domain renders always leave an entry for every row from "
+               "top_usable_row down",
                "cursor_pos designates a cell of the array (row < number of rows, or (0,0) for an empty array), column < width",
                "nothing else writes to the terminal and its size does not change between enter and exit (C18 covers movement)",
                "terminal semantics = lean/Curtsies/Spec/Term.lean (cross-checked against pyte on every run)"]
 TRUSTED = ["lean/Curtsies/Spec/Term.lean and harness/termref.py's tokeniser (see C02)"]
+LEVEL_NOTE = ("PROVED in Lean for all inputs of the model: C07_render (one render from any related state, all arrays: history "
+              "above the window intact, array shown, scroll count, returned value, origin, cursor, relation restored), C07_history "
+              "(every render of every render sequence), C07_enter (+ C07_enter_rel), C07_exit, C07_then_diff (composition with "
+              "C18's conservation). Hypotheses outside the property's quantifier, stated: rows no wider than the terminal "
+              "(`len l <= t.w`; wider rows wrap and cause an uncounted scroll), printable single-column characters, default "
+              "graphic state at the start of a render, at most 1000001 terminal rows. trusted: Lean kernel + "
+              "propext/Classical.choice/Quot.sound, the hand-written window model (tied per run), the terminal spec "
+              "Spec/Term.lean (cross-checked against pyte per run), the tokeniser for a dozen capability strings")
 
 
 class NoCbreak:
@@ -119,18 +138,33 @@ def run_history(c):
     size = (c["h"], c["w"])
     win.t = TermProxy(_pool["t"], size)
     out.ref = Term(c["h"], c["w"], c["screen"], c["cursor"][0], c["cursor"][1], c["sb"])
-    out.py = termref.PyteTerm(c["h"], c["w"], c["screen"], c["cursor"][0], c["cursor"][1], c["sb"]) if c.get("pyte", True) else None
+    use_pyte = c.get("pyte", True) and not any(st[0] == "M" for st in c["steps"])
+    out.py = termref.PyteTerm(c["h"], c["w"], c["screen"], c["cursor"][0], c["cursor"][1], c["sb"]) if use_pyte else None
     res = []
-    for st in c["steps"]:
+    for idx in range(len(c["steps"])):
+        st = c["steps"][idx]
         before = out.ref.state()
+        if st[0] == "M?":
+            # settle a tentative move: the cursor must stay on the screen
+            r0 = out.ref.r
+            st = c["steps"][idx] = ("M", st[1], max(-r0, min(st[2], st[1] - 1 - r0)))
         o = dict(before=before, kind=st[0])
         try:
-            if st[0] == "E":
+            if st[0] == "M":
+                out.ref.move(st[2], st[1])
+                size = (st[1], c["w"])
+                win.t = TermProxy(_pool["t"], size)
+                res.append(dict(kind="M", before=before, state=out.ref.state(), moved=True))
+                continue
+            if st[0] == "D":
+                o["ret"] = win.get_cursor_vertical_diff()
+                o["last"] = win._last_cursor_row
+            elif st[0] == "E":
                 win.__enter__()
             elif st[0] == "X":
                 win.__exit__(None, None, None)
             else:
-                o["ret"] = win.render_to_terminal([wire.mk_fmt(r) for r in st[2]], tuple(st[1]))
+                o["ret"] = win.render_to_terminal(mk_array(st[2], st[3] if len(st) > 3 else "list"), tuple(st[1]))
                 o["last"] = win._last_cursor_row
         except termref.Untokenisable as e:
             o["error"] = str(e)
@@ -148,10 +182,13 @@ def impl_reply(res):
         if "error" in o:
             parts.append("untokenisable " + o["error"])
             continue
+        if o.get("moved"):
+            parts.append("moved")
+            continue
         s = enc_ops(o["ops"]) + " " + o["term"]
         if o["kind"] == "E":
             s += " top=%d" % o["top"]
-        elif o["kind"] == "R":
+        elif o["kind"] in ("R", "D"):
             s += " top=%d ret=%d last=%d" % (o["top"], o["ret"], o["last"])
         parts.append(s)
     return "ok " + " # ".join(parts)
@@ -173,7 +210,8 @@ def canon(reply):
 def line(c):
     steps = []
     for st in c["steps"]:
-        steps.append("R:%d,%d:%s" % (st[1][0], st[1][1], enc_array(st[2])) if st[0] == "R" else st[0])
+        steps.append("R:%d,%d:%s" % (st[1][0], st[1][1], enc_array(st[2])) if st[0] == "R" else
+                     "M:%d:%d" % (st[1], st[2]) if st[0] == "M" else st[0])
     return "ca %dx%d %s %d,%d %s %d %d %s" % (c["h"], c["w"], enc_rows(c["screen"]), c["cursor"][0], c["cursor"][1],
                                              enc_rows(c["sb"]), c["hide"], c["keep"], " ".join(steps))
 
@@ -185,18 +223,47 @@ def blank_row(w):
 def oracle(c, res):
     """the property, stated on the reference terminal (scrollback ++ screen = everything the user can scroll through)"""
     h, w = c["h"], c["w"]
-    top = None
+    top = known = None
     for i, (st, o) in enumerate(zip(c["steps"], res)):
         if "error" in o:
             return "step %d: %s" % (i, o["error"])
         b, s = o["before"], o["state"]
         full_b = b["scrollback"] + b["screen"]
         full = s["scrollback"] + s["screen"]
-        if o["pyte"]:
+        if o.get("pyte"):
             pscreen, pcur, psb = o["pyte"]
             if (not termref.same_modulo_dark(pscreen, [list(r) for r in s["screen"]]) or pcur[:2] != s["cursor"][:2]
                     or not termref.same_modulo_dark(psb, [list(r) for r in s["scrollback"]])):
                 return "step %d: pyte disagrees with the reference terminal: %r vs %r" % (i, (pscreen, pcur, psb), s)
+        if st[0] == "M":
+            h = st[1]
+            moved_from = b["cursor"][0]
+            continue
+        if st[0] == "D":
+            # C18: what get_cursor_vertical_diff did to top_usable_row plus what it returned is the cursor's movement
+            # since the last render (the window last knew the cursor on row `known`)
+            if full != full_b:
+                return "step %d: get_cursor_vertical_diff changed the screen" % i
+            if known is not None and (o["top"] - top) + o["ret"] != s["cursor"][0] - known:
+                return "step %d: top_usable_row %+d, returned %d, the cursor moved %d rows" % (
+                    i, o["top"] - top, o["ret"], s["cursor"][0] - known)
+            if known is None and (o["top"] != top or o["ret"] != 0):
+                return "step %d: nothing rendered yet, but top/return changed" % i
+            if o["last"] != s["cursor"][0]:
+                return "step %d: _last_cursor_row %r, cursor is on row %d" % (i, o["last"], s["cursor"][0])
+            top, known = o["top"], s["cursor"][0]        # the window's first row is, by definition, top_usable_row
+            if not 0 <= top <= h:
+                return "step %d: top_usable_row %d is not a screen row" % (i, top)
+            if top == h:
+                # the terminal shrank to the rows above the window (only possible at top_usable_row = 1 = new height:
+                # the upward loop never lowers it below 1): the window has no row left; not judged further
+                return None
+            continue
+        if c.get("outside_domain"):
+            # stale cache (content moved, size did not): only C18's bookkeeping is judged
+            if st[0] in ("E", "R"):
+                top, known = o["top"], (o.get("last") if st[0] == "R" else None)
+            continue
         if st[0] == "E":
             if full != full_b or s["cursor"][:2] != b["cursor"][:2]:
                 return "step %d: entering the context changed the screen" % i
@@ -213,7 +280,7 @@ def oracle(c, res):
             if c["hide"] and not s["cursor"][3]:
                 return "step %d: cursor left hidden" % i
             continue
-        _, pos, rows = st
+        pos, rows = st[1], st[2]
         n = len(rows)
         hist = len(b["scrollback"]) + top                     # rows above the window's first row
         scrolls = max(0, n - (h - top))                       # lines the array does not fit
@@ -238,7 +305,7 @@ def oracle(c, res):
             return "step %d: cursor at %r, cursor_pos %r designates screen cell (%d, %d)" % (i, s["cursor"], pos, crow, pos[1])
         if s["cursor"][3] != (True if not c["hide"] else b["cursor"][3]) or s["g"] != ():
             return "step %d: cursor visibility / graphic state not restored" % i
-        top = top2
+        top, known = top2, s["cursor"][0]
     return None
 
 
@@ -275,8 +342,47 @@ def rand_history(r, pyte=True):
         if prev and r.random() < 0.5:
             rows = [prev[i] if i < len(prev) and r.random() < 0.6 else rows[i] for i in range(n)]
         prev = rows
-        c["steps"].append(("R", (r.randint(0, max(n - 1, 0)), r.randint(0, w - 1)), rows))
+        # the array as a list of FmtStr, an FSArray (rows of one width) or a list of plain str (unformatted rows)
+        c["steps"].append(("R", (r.randint(0, max(n - 1, 0)), r.randint(0, w - 1)), rows, container_for(r, rows)))
     c["steps"].append(("X",))
+    return c
+
+
+def rand_mixed(r, resize=True):
+    """renders interleaved with `the terminal is resized and its content moves by k rows` + get_cursor_vertical_diff.
+    resize=False: the content moves although the size stays (another program scrolled the screen): the row cache is
+    stale then - outside the domain, run for the tie only (it is the one way window.py's `row not in cache` shortcut
+    is reached with a non-empty cache)."""
+    h, w = r.randint(2, 4), r.randint(2, 5)
+    c = dict(h=h, w=w, screen=rand_junk(r, h, w), sb=[rand_junk(r, 1, w, False)[0] for _ in range(r.choice([0, 1, 2, 3]))],
+             cursor=(r.randint(0, h - 1), 0), hide=r.random() < 0.5, keep=r.random() < 0.5, steps=[("E",)], pyte=False,
+             outside_domain=not resize)
+    row = c["cursor"][0]
+    for _ in range(r.randint(1, 3)):
+        top = None
+        n = r.choice([0, 1, 2, h, r.randint(0, h)])
+        rows = rand_rows(r, n, w)
+        c["steps"].append(("R", (r.randint(0, max(n - 1, 0)), r.randint(0, w - 1)), rows))
+        if r.random() < 0.75:
+            # we do not know the cursor row here (it depends on the render); choose the move when replaying: the step
+            # carries (new_h, k) with k clamped by run-time feasibility, so pick small moves and a generous height
+            new_h = h if not resize else r.choice([x for x in range(max(1, h - 2), h + 3) if x != h])
+            k = r.randint(-2, 2)
+            c["steps"].append(("M?", new_h, k))
+            c["steps"].append(("D",))
+            h = new_h
+    c["steps"].append(("X",))
+    return c
+
+
+def settle(c):
+    """turn the tentative moves ('M?') into feasible ones (the cursor must stay on the screen: 0 <= row + k < new_h) by
+    running the history once; the tie then runs the settled history again"""
+    try:
+        run_history(c)
+    except Exception:  # noqa: BLE001 - reported when the tie runs it
+        pass
+    c["steps"] = [("M", st[1], 0) if st[0] == "M?" else st for st in c["steps"]]
     return c
 
 
@@ -297,6 +403,8 @@ def exhaustive(ctx):
 def check(ctx):
     r = ctx.rng
     cases = [rand_history(r) for _ in range(8000 if ctx.thorough else 3000)] + exhaustive(ctx)
+    cases += [settle(rand_mixed(r)) for _ in range(3000 if ctx.thorough else 700)]
+    cases += [settle(rand_mixed(r, resize=False)) for _ in range(600 if ctx.thorough else 150)]
     outs = {}
 
     def impl(c):
@@ -314,7 +422,11 @@ def check(ctx):
         res = outs[id(c)]
         scrolled = (not isinstance(res, Exception) and
                     any(len(o["state"]["scrollback"]) > len(o["before"]["scrollback"]) for o in res if "state" in o))
-        ctx.count(c, nontrivial=scrolled or bool(c["screen"]), tag="renders:%d%s" % (len(c["steps"]) - 2, "+scroll" if scrolled else ""))
+        moves = sum(1 for st in c["steps"] if st[0] == "M")
+        ctx.count(c, nontrivial=scrolled or bool(c["screen"]),
+                  tag=("outside-domain:moved-without-resize" if c.get("outside_domain") else
+                       "mixed:%d-moves" % moves if moves else
+                       "renders:%d%s" % (len(c["steps"]) - 2, "+scroll" if scrolled else "")))
         w = safe_oracle(c, res)
         if w:
             ctx.violation(w, c, None)
